@@ -232,3 +232,38 @@ PROPS["C02"] = {
                    "oracle = deadlock/livelock detector + step horizon (hang).",
     "legs": _c02(),
 }
+
+# ------------------------------------------------------------------------------------------------ C04
+PROPS["C04"] = {
+    "explanation": "White-box on the real thread_data / context lists: external threads emulate 'running a task of context X' and call the real bind_to / "
+                   "cancel_group_execution / destructor. Tree R(root) -> P, controls S, Q, I; window = cancel(R) or cancel(P) || bind C beneath P (grand-ancestor path) || bind D "
+                   "beneath R (direct path) || second canceller || destroy a sibling || bind E beneath the fresh C || context cancelled before binding. Oracle at quiescence: "
+                   "cancelled <=> it or an ancestor was a cancel target; controls untouched; exactly one winner; stays cancelled until reset.",
+    "legs": [
+        leg("grand", "c04_ctx", (3, 4), {"kind": "grand"}, what="cancel(R) || bind C beneath P"),
+        leg("direct", "c04_ctx", (3, 4), {"kind": "direct"}, what="cancel(R) || bind D beneath R"),
+        leg("both", "c04_ctx", (2, 3), {"kind": "both"}, what="cancel(R) || bind C beneath P || bind D beneath R"),
+        leg("two_cancel", "c04_ctx", (2, 3), {"kind": "two_cancel"}, what="two cancellers of R || bind C beneath P"),
+        leg("mid", "c04_ctx", (2, 3), {"kind": "mid"}, what="cancel(P) || bind C beneath P || bind D beneath R (D, R stay clean)"),
+        leg("destroy", "c04_ctx", (2, 3), {"kind": "destroy"}, what="cancel(R) || bind C beneath P || destroy sibling X"),
+        leg("deep", "c04_ctx", (2, 3), {"kind": "deep"}, what="cancel(R) || bind C beneath P || bind E beneath C"),
+        leg("prebind", "c04_ctx", (3, 3), {"kind": "prebind"}, what="C cancelled before its first binding, then bound beneath a clean parent while cancel(S) propagates"),
+    ],
+}
+
+# ------------------------------------------------------------------------------------------------ C20
+PROPS["C20"] = {
+    "explanation": "Real scheduler with ucontext coroutines (stack switches stay on the same OS thread) in task_arena(2) / task_arena(1): a task calls task::suspend; the "
+                   "suspend point is resumed by a foreign thread, from inside the callback, by a sibling task, in reverse order for two suspended tasks, or twice in a row. "
+                   "Oracle: the continuation runs exactly once, only after resume was called, never on two threads at once; the enclosing wait returns after it; the other "
+                   "task of the group runs; deadlock detection.",
+    "legs": [
+        leg("foreign", "c20_suspend", (2, 3), {"kind": "foreign"}, what="foreign thread resumes as soon as it sees the suspend point (races the stack switch)"),
+        leg("foreign-asleep", "c20_suspend", (2, 3), {"kind": "foreign", "asleep": 1}, what="same, worker asleep at the start"),
+        leg("callback", "c20_suspend", (2, 3), {"kind": "callback"}, what="resume inside the suspend callback"),
+        leg("worker", "c20_suspend", (2, 3), {"kind": "worker"}, what="a sibling task resumes"),
+        leg("nested", "c20_suspend", (1, 2), {"kind": "nested"}, what="two suspended tasks resumed in reverse order", weight=2.0),
+        leg("arena1", "c20_suspend", (2, 3), {"kind": "arena1"}, what="arena of one slot: owner recall"),
+        leg("twice", "c20_suspend", (1, 2), {"kind": "twice"}, what="the same task suspends twice", weight=2.0),
+    ],
+}
